@@ -20,6 +20,7 @@ import PtaProofs.Lemmas.DiagramSem
 import PtaProofs.Lemmas.PumlAgg
 import PtaProofs.Lemmas.PumlRoundtrip
 import PtaProofs.Lemmas.ExtNames
+import PtaProofs.Lemmas.DiagramRepair
 namespace Pta.E2E
 open Pta PtaSpec Pta.Ord Pta.Dg Pta.Itm
 
@@ -355,8 +356,9 @@ theorem file_conforms_lemma (mt : Str → Str → Bool) (a : Arch) (g : PGraph S
   obtain ⟨s1, s2⟩ := parse_sim d D hM p hpm hpd
   obtain ⟨e1, e2, e3, e4⟩ := diagramRules_congr_lemma mt g so p (parsedOf D) ⟨hk, fun kv h => (hv kv h).2⟩
     (depsOK_parsedOf D) s1 s2 (noErr_of_decided c3)
-  unfold diagramAssert
-  simp only [hp, prefixParsed]
+  -- in the domain the check of the repair (every component is a module) is a no-op
+  rw [Pta.Repair.diagramAssert_of_noMissing mt g so _ none p hp (Pta.Repair.noMissing_of_modules a g hg D hdom p s1)]
+  simp only [prefixParsed]
   exact ⟨e3.trans c1, e2, e1, e4⟩
 
 /-- the same with `with_base_module(q)`: the file is read as if every component were written `q.name` -/
@@ -388,8 +390,8 @@ theorem file_conforms_base_lemma (mt : Str → Str → Bool) (a : Arch) (g : PGr
   obtain ⟨e1, e2, e3, e4⟩ := diagramRules_congr_lemma mt g so (prefixParsed p (some (render q)))
     (parsedOf (prefixDiagram q D)) (depsOK_prefix p _ ⟨hk, fun kv h => (hv kv h).2⟩)
     (depsOK_parsedOf _) t1 t2 (noErr_of_decided c3)
-  unfold diagramAssert
-  simp only [hp]
+  rw [Pta.Repair.diagramAssert_of_noMissing mt g so _ (some (render q)) p hp
+    (Pta.Repair.noMissing_of_modules a g hg _ hdom _ t1)]
   exact ⟨e3.trans c1, e2, e1, e4⟩
 
 /-! ### the two canonical meanings; the `hasDep` view of the relation; a checkable form of "no rule errs" -/
@@ -447,8 +449,16 @@ theorem file_same_meaning_lemma (mt : Str → Str → Bool) (g : PGraph Str) (so
   have s2 : ∀ x y, y ∈ p.depsOf x ↔ y ∈ p'.depsOf x := fun x y => by rw [hpd, hpd']; exact ha (x, y)
   have o1 : DepsOK p := ⟨hk, fun kv h => (hv kv h).2⟩
   have o2 : DepsOK p' := ⟨hk', fun kv h => (hv' kv h).2⟩
-  unfold diagramAssert at hne ⊢
-  simp only [hp, hp'] at hne ⊢
+  -- the second check does not raise: no component is missing there, and the first file draws the same components
+  have hm' := Pta.Repair.noMissing_of_noErr mt g so _ base p' hp' hne
+  have hm : diagramMissing (prefixParsed p base) g = false := by
+    rw [← hm']
+    apply Pta.Repair.diagramMissing_congr
+    cases base with
+    | none => exact s1
+    | some b => exact (prefix_sim p p' b s1 s2).1
+  rw [Pta.Repair.diagramAssert_of_noMissing mt g so _ base p' hp' hm'] at hne ⊢
+  rw [Pta.Repair.diagramAssert_of_noMissing mt g so _ base p hp hm]
   cases base with
   | none =>
     obtain ⟨e1, e2, _, e4⟩ := diagramRules_congr_lemma mt g so p p' o1 o2 s1 s2 (noErr_of_applyAll mt g _ hne)
